@@ -760,6 +760,28 @@ def _sep_present(call: ast.Call, sep: ast.expr | None, model: _SeqLen) -> bool:
                 for t in g.ifs:
                     facts += _atomic(t, True)
         node = a
+    # the receiver is the loop variable over a list that was filtered by `SEP in x` when it was built
+    # (`keys = [k for k in d if SEP in k]` ... `for name in keys: a, b = name.split(SEP, 1)`)
+    if isinstance(recv, ast.Name) and not model.fi.is_lambda:
+        for lp in model.fi.local_nodes():
+            if isinstance(lp, ast.For) and isinstance(lp.target, ast.Name) and lp.target.id == recv.id and isinstance(lp.iter, ast.Name) and any(call is x for b in lp.body for x in ast.walk(b)):
+                L = lp.iter.id
+                defs = [n for n in model.fi.local_nodes() if isinstance(n, ast.Assign) and len(n.targets) == 1 and isinstance(n.targets[0], ast.Name) and n.targets[0].id == L]
+                stores = [n for n in model.fi.local_nodes() if isinstance(n, ast.Name) and n.id == L and isinstance(n.ctx, (ast.Store, ast.Del))]
+                grows = any(
+                    isinstance(c, ast.Call) and isinstance(c.func, ast.Attribute) and isinstance(c.func.value, ast.Name) and c.func.value.id == L
+                    and c.func.attr not in ("sort", "reverse", "index", "count", "copy")
+                    for c in model.fi.local_nodes()
+                ) or any(isinstance(x, ast.Subscript) and isinstance(x.ctx, (ast.Store, ast.Del)) and isinstance(x.value, ast.Name) and x.value.id == L for x in model.fi.local_nodes())
+                rebinds_var = any(isinstance(x, ast.Name) and x.id == recv.id and isinstance(x.ctx, ast.Store) and x is not lp.target for x in ast.walk(lp))
+                if len(defs) == 1 and len(stores) == 1 and not grows and not rebinds_var:
+                    d = defs[0].value
+                    if isinstance(d, (ast.ListComp, ast.GeneratorExp)) and len(d.generators) == 1 and isinstance(d.generators[0].target, ast.Name) and isinstance(d.elt, ast.Name) and d.elt.id == d.generators[0].target.id:
+                        v = d.elt.id
+                        for t_ in d.generators[0].ifs:
+                            for tt, pol in _atomic(t_, True):
+                                if pol and isinstance(tt, ast.Compare) and len(tt.ops) == 1 and isinstance(tt.ops[0], ast.In) and isinstance(tt.left, ast.Constant) and tt.left.value == sep.value and isinstance(tt.comparators[0], ast.Name) and tt.comparators[0].id == v:
+                                    return True
     for test, pol in facts:
         if not (isinstance(test, ast.Compare) and len(test.ops) == 1 and isinstance(test.left, ast.Constant) and test.left.value == sep.value):
             continue
